@@ -20,6 +20,7 @@ type hEvent struct {
 	bytes []byte // filled by encode
 	unit  int    // index of the unit it belongs to (-1: file prologue)
 	cfg   Cfg    // format in force when the master wrote the event (the format of its file)
+	sid   uint32 // server id in the header: the server the change originated on (0: the master's own, 7)
 	// for rows events: the images, to compute expectations
 	table *tableDef
 	rows  *rowsDef
@@ -106,6 +107,8 @@ type histOpts struct {
 	oddCols bool
 	// rawTypes: every ignorable event is an event of one of these type codes (taken in turn), with a random body,
 	// and ignorable events are frequent (every second slot instead of every sixth).
+	// wideCols: the first table has 65..130 columns (column indices beyond one machine word of per-column flags)
+	wideCols bool
 	rawTypes []int
 	// txDDL: a transaction may contain DDL-classified statements (CREATE / DROP TEMPORARY TABLE are logged inside the
 	// transaction that ran them and do not commit it); they are part of the transaction and delivered at its commit.
@@ -125,6 +128,14 @@ func genHistory(r *vh.Rng, cfg Cfg, o histOpts) *history {
 		}
 		if q := r.Side(); o.oddCols && q.Chance(2, 5) {
 			nc := q.Pick(9, 9, 10, 11, 12, 17)
+			if o.colCases != nil {
+				t = genTableOf(r, nc, cfg, o.colCases)
+			} else {
+				t = genTable(r, nc, cfg)
+			}
+		}
+		if o.wideCols && i == 0 {
+			nc := r.Side().Pick(65, 66, 70, 100, 129)
 			if o.colCases != nil {
 				t = genTableOf(r, nc, cfg, o.colCases)
 			} else {
@@ -159,13 +170,25 @@ func genHistory(r *vh.Rng, cfg Cfg, o histOpts) *history {
 	}
 	ts := uint32(1500000000 + r.Intn(1000))
 	unit := 0
+	// The server id of an event names the server the change ORIGINATED on; in a chained or circular topology a master
+	// relays units of other origins, and an origin id may equal the id this replica announces (1234 at parse level,
+	// 4000000000 / 5 / 9 / 11 / 77 end to end).  Every unit is delivered whatever its origin.
+	sq := r.Side()
+	unitSID, sidOfUnit := uint32(7), -1
 	add := func(kind string, body vh.Val, t *tableDef, rd *rowsDef) int {
+		if unit != sidOfUnit {
+			sidOfUnit = unit
+			unitSID = 7
+			if sq.Chance(1, 3) {
+				unitSID = uint32(sq.Pick(1234, 4000000000, 5, 9, 11, 77, 1, 0, int(uint32(sq.U64()))))
+			}
+		}
 		ln := uint32(30 + r.Intn(200))
 		if jumpLeft > 0 && off < 0x10000000 && bq.Chance(1, 4) {
 			ln += 0x80000000 + uint32(bq.Intn(0x60000000))
 			jumpLeft--
 		}
-		e := hEvent{kind: kind, body: body, file: file, start: off, next: off + ln, ts: ts, unit: unit, table: t, rows: rd, cfg: cfg}
+		e := hEvent{kind: kind, body: body, file: file, start: off, next: off + ln, ts: ts, unit: unit, table: t, rows: rd, cfg: cfg, sid: unitSID}
 		off += ln
 		ts += uint32(r.Intn(3))
 		h.events = append(h.events, e)
@@ -403,7 +426,11 @@ func genHistory(r *vh.Rng, cfg Cfg, o histOpts) *history {
 func (h *history) encode(c *Ctx) {
 	reqs := make([]vh.Val, len(h.events))
 	for i, e := range h.events {
-		reqs[i] = mkEventReq(e.cfg, Hdr{TS: e.ts, SID: 7, Next: e.next, Flags: 0}, e.body, c.Rng.Bytes(4))
+		sid := e.sid
+		if sid == 0 && (e.kind == "fakerotate" || e.kind == "format") {
+			sid = 7
+		}
+		reqs[i] = mkEventReq(e.cfg, Hdr{TS: e.ts, SID: sid, Next: e.next, Flags: 0}, e.body, c.Rng.Bytes(4))
 	}
 	for i, resp := range c.M.Batch(reqs) {
 		b, ok := resp.Nth(0).Hex()
